@@ -199,7 +199,7 @@ static value state_of(VM& vm)
     return o;
 }
 
-static bool load_sqf(VM& vm, const value& st, value& out)
+bool load_sqf(VM& vm, const value& st, value& out)
 {
     auto& rt = *vm.rt;
     auto pi = pathinfo_of(st, "/vh/input.sqf");
@@ -473,6 +473,8 @@ static value run_step(const value& st, std::map<int, std::unique_ptr<VM>>& vms)
     return out;
 }
 
+bool g_exit_after_case = false;
+
 int main(int argc, char** argv)
 {
     std::ios::sync_with_stdio(false);
@@ -510,7 +512,8 @@ int main(int argc, char** argv)
         arm_cpu(cpu_ms);
         auto res = value::arr();
         {
-            std::map<int, std::unique_ptr<VM>> vms;
+            auto vms_p = std::make_unique<std::map<int, std::unique_ptr<VM>>>();
+            auto& vms = *vms_p;
             auto& steps = c["steps"];
             bool journal_steps = c["journal_steps"].boolean(false);
             for (size_t i = 0; i < steps.size(); i++)
@@ -522,8 +525,10 @@ int main(int argc, char** argv)
                     if (write(1, buf, (size_t)n) < 0) {}
                 }
                 res.push(run_step(steps.at(i), vms));
+                if (g_exit_after_case) break;
             }
-            api_reset();
+            if (g_exit_after_case) { vms_p.release(); /* a lost thread still runs inside one of these VMs */ }
+            else api_reset();
         }
         arm_cpu(0);
         struct rusage ru1; getrusage(RUSAGE_SELF, &ru1);
@@ -543,6 +548,7 @@ int main(int argc, char** argv)
             if (w <= 0) break;
             off += (size_t)w;
         }
+        if (g_exit_after_case) _exit(0);
     }
     return 0;
 }
